@@ -362,7 +362,10 @@ impl Builder {
 
         let mut header = self.header.take().unwrap_or_default();
 
-        if self.length.is_some() {
+        if let Some(length) = self.length {
+            // The fixed part may have been written before this length was set.
+            let length = length.to_be_bytes();
+            header[LENGTH..LENGTH + length.len()].copy_from_slice(length.as_slice());
             return Ok(header);
         }
 
